@@ -57,7 +57,9 @@ Definition major_usable (m : Z * Z * Z * Z) : bool :=
 Definition lists_check : bool :=
   list_ok simple_list && list_ok major_list && list_ok subtype_list &&
   forallb simple_passes simple_list && forallb major_usable major_list &&
-  (simple_list_out_of_range_accepted =? 0) && (major_list_out_of_range_accepted =? 0) && (subtype_list_out_of_range_accepted =? 0).
+  (simple_list_out_of_range_accepted =? 0) && (major_list_out_of_range_accepted =? 0) && (subtype_list_out_of_range_accepted =? 0) &&
+  (* SFC_GET_FORMAT_INFO knows every listed major and subtype under the same name, and no code that is not listed *)
+  (format_info_mismatches =? 0) && (format_info_unlisted_accepted =? 0).
 Theorem lists_sound : lists_check = true.
 Proof. vm_compute. reflexivity. Qed.
 
